@@ -1,4 +1,5 @@
 open BinNums
+open BinPosDef
 open Datatypes
 open Nat
 
@@ -12,7 +13,30 @@ module Pos :
 
   val pred_double : positive -> positive
 
+  type mask = Pos.mask =
+  | IsNul
+  | IsPos of positive
+  | IsNeg
+
+  val succ_double_mask : mask -> mask
+
+  val double_mask : mask -> mask
+
+  val double_pred_mask : positive -> mask
+
+  val sub_mask : positive -> positive -> mask
+
+  val sub_mask_carry : positive -> positive -> mask
+
   val mul : positive -> positive -> positive
+
+  val iter : ('a1 -> 'a1) -> 'a1 -> positive -> 'a1
+
+  val div2 : positive -> positive
+
+  val div2_up : positive -> positive
+
+  val size : positive -> positive
 
   val compare_cont : comparison -> positive -> positive -> comparison
 
